@@ -144,9 +144,9 @@ pub fn rand_conv(rng: &mut Rng, o: &GenOpts, inp: (usize, usize, usize)) -> Opti
 }
 pub fn rand_deconv(rng: &mut Rng, o: &GenOpts, inp: (usize, usize, usize)) -> Option<Simple> {
     for _ in 0..20 {
-        let kernel = (rng.range(1, 3), rng.range(1, 3));
+        let kernel = (rng.range(1, 5), rng.range(1, 5));
         let stride = (rng.range(1, o.stride_max), rng.range(1, o.stride_max));
-        let padding = (rng.range(0, o.pad_max.min(1)), rng.range(0, o.pad_max.min(1)));
+        let padding = (rng.range(0, o.pad_max.min(kernel.0 / 2 + 1)), rng.range(0, o.pad_max.min(kernel.1 / 2 + 1)));
         let l = Simple::Deconv { filters: rng.range(1, o.max_ch), kernel, stride, padding, act: *rng.pick(&o.acts), dropout: rand_dropout(rng, o) };
         if let Some(Sh::Sp(_, h, w)) = out_shape(&l, Sh::Sp(inp.0, inp.1, inp.2)) {
             // the forward pass evaluates (ih-1)*s - 2p + k left to right in usize
